@@ -204,17 +204,27 @@ H = Harness(
 
 # ------------------------------------------------------------------------------ inheritance
 def inh_params(tier):
-    return [P("variant", 0, 3), P("leave", 0, 1)]
+    return [P("variant", 0, 5), P("leave", 0, 1), P("falsy", 0, 1)]
 
 
 @guard
 def inh_fn(a, tier):
-    variant, leave_exc = pick(a["variant"], 4), pick(a["leave"], 2)
+    variant, leave_exc, falsy = pick(a["variant"], 6), pick(a["leave"], 2), pick(a["falsy"], 2)
     problems = []
-    names = ["service task", "task factory task (start_task)", "task factory task (start_task_soon from a nested context)", "component prepare()/start()"]
+    names = ["service task", "task factory task (start_task)", "task factory task (start_task_soon from a nested context)", "component prepare()/start()",
+             "task of a factory started through the owner's METHOD while a nested context was current, spawned after that context was left",
+             "service task started through the owner's METHOD while a nested context was current"]
+
+    class Batch(Context):
+        """A context that is also a (currently empty) container: falsy."""
+
+        def __len__(self):
+            return 0
 
     async def main():
-        async with Context() as outer:
+        async with (Batch() if falsy else Context()) as outer:
+            if cur() is not outer:
+                problems.append(("current-context-inside-the-block-is-not-that-context", repr(cur())))
             outer.add_resource(object(), "marker", [Marker])
             if variant == 0:
                 async def svc():
@@ -228,8 +238,25 @@ def inh_fn(a, tier):
                         problems.append(("service-task-restore", ""))
                 await start_service_task(svc, "svc")
                 await anyio.sleep(0)
-            elif variant in (1, 2):
-                tf = await start_background_task_factory()
+            elif variant == 5:
+                seen = {}
+
+                async def svc5():
+                    seen["c"] = cur()
+
+                async with Context() as request:
+                    await outer.start_service_task(svc5, "svc5")
+                    if cur() is not request:
+                        problems.append(("current-context-changed-by-starting-a-service-task", ""))
+                await anyio.sleep(0)
+                if seen.get("c") is None or seen["c"].parent is not outer:
+                    problems.append(("service-task-context-not-under-the-context-it-was-started-on", repr(seen.get("c"))))
+            elif variant in (1, 2, 4):
+                if variant == 4:
+                    async with Context():
+                        tf = await outer.start_background_task_factory()
+                else:
+                    tf = await start_background_task_factory()
                 seen = {}
 
                 async def job():
@@ -244,7 +271,7 @@ def inh_fn(a, tier):
                         pass
                     seen["after"] = cur()
 
-                if variant == 1:
+                if variant in (1, 4):
                     h = await tf.start_task(job)
                 else:
                     async with Context():
@@ -291,7 +318,8 @@ def inh_fn(a, tier):
         pass
 
     _, exc, _k = run(main)
-    summary = {"site": names[variant], "inner_block_left_by": "exception" if leave_exc else "return"}
+    summary = {"site": names[variant], "inner_block_left_by": "exception" if leave_exc else "return",
+               "outer_context": "a falsy Context subclass (an empty container)" if falsy else "Context"}
     if exc is not None:
         return FAIL(f"raised:{type(exc).__name__}", repr(exc), summary)
     if problems:
@@ -306,7 +334,8 @@ INH = Harness(
     params=inh_params,
     cube=lambda tier: 0,
     title="parents of contexts created in service tasks, task-factory tasks and component prepare()/start()",
-    bound_text=lambda tier: "4 sites x inner block left by return / exception",
+    bound_text=lambda tier: "6 sites (incl. a task factory / service task started through the owner's method while a nested context is current) x inner block left by "
+    "return / exception x outer context a plain Context / a falsy Context subclass",
     oracle="service task: own context whose parent is the owner; factory task: context under the factory's context under the owner, whoever spawned "
     "it; inside prepare()/start(): a new Context()'s parent is the context start_component was called in; restoration after inner blocks",
     outside="-",
